@@ -18,7 +18,8 @@ use std::time::Duration;
 pub struct Early {
     /// 0: at start (before the first datagram); 1: after `ms` ms; 2: `ms` ms (scaled to 0..100)
     /// before the twin's bootstrap completion; 3: right at completion; 4: `ms` ms after;
-    /// 5: at ms/3000 of (outage + 10 s), i.e. while the network is down or shortly after
+    /// 5: at ms/3000 of (outage + 10 s), i.e. while the network is down or shortly after;
+    /// 6: ms/8 ms around the twin's completion time (-187..+187 ms)
     mode: u8,
     ms: u16,
     announce: bool,
@@ -39,7 +40,32 @@ pub struct Case {
     #[serde(default)]
     outage_ms: u32,
     early: Vec<Early>,
+    /// a stranger pings the fresh node (and its twin) every `.0` ms; each reply takes `.1` ms to send
+    #[serde(default)]
+    busy: Option<(u16, u16)>,
     rt_seed: u64,
+}
+
+/// slow sends of two nodes (the fresh node and its twin) towards one address
+struct BusyTwo<P: Policy> {
+    inner: P,
+    a: SocketAddr,
+    b: SocketAddr,
+    to: SocketAddr,
+    ms: u64,
+}
+
+impl<P: Policy> Policy for BusyTwo<P> {
+    fn fate(&mut self, d: &Dgram) -> Fate {
+        self.inner.fate(d)
+    }
+    fn send_block(&mut self, d: &Dgram) -> Duration {
+        if (d.from == self.a || d.from == self.b) && d.to == self.to {
+            Duration::from_millis(self.ms)
+        } else {
+            Duration::ZERO
+        }
+    }
 }
 
 pub struct EarlySearch;
@@ -77,10 +103,10 @@ impl Stage for EarlySearch {
         tier.pick(1500, 100_000)
     }
     fn strategy(&self, _t: Tier) -> BoxedStrategy<Case> {
-        let early = (prop_oneof![3 => Just(0u8), 2 => Just(1u8), 2 => Just(2u8), 1 => Just(3u8), 1 => Just(4u8), 3 => Just(5u8)], 0u16..3000, any::<bool>())
+        let early = (prop_oneof![3 => Just(0u8), 2 => Just(1u8), 2 => Just(2u8), 1 => Just(3u8), 1 => Just(4u8), 3 => Just(5u8), 3 => Just(6u8)], 0u16..3000, any::<bool>())
             .prop_map(|(mode, ms, announce)| Early { mode, ms, announce });
-        (any::<bool>(), vec(any::<u8>(), 3..=6), 1u8..=6, 0u8..4, vec(prop_oneof![Just(0u16), 0u16..50, 0u16..400], 1..32), prop_oneof![3 => Just(0u32), 2 => 100u32..8_000, 1 => 8_000u32..40_000], vec(early, 1..=4), any::<u64>())
-            .prop_map(|(v6, net_ids, contacts, silent, lat, outage_ms, early, rt_seed)| Case { v6, net_ids, contacts, silent, lat, outage_ms, early, rt_seed })
+        (any::<bool>(), vec(any::<u8>(), 3..=6), 1u8..=6, 0u8..4, vec(prop_oneof![Just(0u16), 0u16..50, 0u16..400], 1..32), prop_oneof![3 => Just(0u32), 2 => 100u32..8_000, 1 => 8_000u32..40_000], vec(early, 1..=6), any::<u64>(), proptest::option::weighted(0.4, (300u16..1500, 10u16..70).prop_map(|(period, pct)| (period, (period as u32 * pct as u32 / 100) as u16))))
+            .prop_map(|(v6, net_ids, contacts, silent, lat, outage_ms, early, rt_seed, busy)| Case { v6, net_ids, contacts, silent, lat, outage_ms, early, busy, rt_seed })
             .boxed()
     }
     fn run(&self, c: &Case) -> Outcome {
@@ -89,7 +115,9 @@ impl Stage for EarlySearch {
             // latency table + per-address blackout windows (address -> traffic lost until t)
             let blocked: std::sync::Arc<std::sync::Mutex<std::collections::HashMap<SocketAddr, Duration>>> = Default::default();
             let lat = LatencyTable { table: c.lat.clone() };
+            let lat2 = LatencyTable { table: c.lat.clone() };
             let b2 = blocked.clone();
+            let b3 = blocked.clone();
             let net = SimNet::new(Box::new(move |d: &Dgram| {
                 let b = b2.lock().unwrap();
                 for a in [d.from, d.to] {
@@ -101,6 +129,21 @@ impl Stage for EarlySearch {
                 }
                 Fate::Deliver(vec![lat.delay(d)])
             }));
+            let pinger = fam_addr(c.v6, 990, 9990);
+            if let Some((_, block)) = c.busy {
+                let inner = move |d: &Dgram| {
+                    let b = b3.lock().unwrap();
+                    for a in [d.from, d.to] {
+                        if let Some(until) = b.get(&a) {
+                            if d.now < *until {
+                                return Fate::Deliver(vec![]);
+                            }
+                        }
+                    }
+                    Fate::Deliver(vec![lat2.delay(d)])
+                };
+                net.set_policy(Box::new(BusyTwo { inner, a: fam_addr(c.v6, 500, 6881), b: fam_addr(c.v6, 501, 6881), to: pinger, ms: block as u64 }));
+            }
             let m = c.net_ids.len();
             let addrs: Vec<SocketAddr> = (0..m).map(|i| fam_addr(c.v6, 10 + i as u16, 6881)).collect();
             // existing network: everybody knows everybody
@@ -129,6 +172,9 @@ impl Stage for EarlySearch {
             let n_addr = fam_addr(c.v6, 500, 6881);
             let n2_addr = fam_addr(c.v6, 501, 6881);
             blocked.lock().unwrap().insert(n2_addr, net.now() + Duration::from_millis(c.outage_ms as u64));
+            if let Some((period, _)) = c.busy {
+                spawn_pinger(&net, pinger, n2_addr, net.now_ms() + 7, period as u64, 200);
+            }
             let twin = start_node(&net, &NodeCfg { addr: n2_addr, id: mk_id(201, 0), read_only: false, nodes: contacts.clone(), routers: vec![], announce_port: None });
             let start = net.now();
             // learn the bootstrap duration from the twin (same contacts, same latency table)
@@ -160,6 +206,9 @@ impl Stage for EarlySearch {
             let r_late = clean(&r_late);
 
             blocked.lock().unwrap().insert(n_addr, net.now() + Duration::from_millis(c.outage_ms as u64));
+            if let Some((period, _)) = c.busy {
+                spawn_pinger(&net, pinger, n_addr, net.now_ms() + 7, period as u64, 200);
+            }
             let n = start_node(&net, &NodeCfg { addr: n_addr, id: mk_id(200, 0), read_only: false, nodes: contacts.clone(), routers: vec![], announce_port: None });
             let n_start = net.now();
             let mut handles = vec![];
@@ -171,6 +220,7 @@ impl Stage for EarlySearch {
                     2 => boot_ms.saturating_sub(1 + e.ms as u64 % 100),
                     3 => boot_ms,
                     5 => e.ms as u64 * (c.outage_ms as u64 + 10_000) / 3000,
+                    6 => (boot_ms + e.ms as u64 / 8).saturating_sub(187),
                     _ => boot_ms + e.ms as u64,
                 };
                 if at_ms + 5 < boot_ms {
@@ -209,7 +259,7 @@ impl Stage for EarlySearch {
         })
     }
     fn rule(&self) -> String {
-        "a network of 3..6 real serving nodes (all know each other) in which one node has announced info-hash H; a fresh node N with 1..6 of them plus 0..3 silent addresses as contacts, per-datagram latencies from a generated table (0..400 ms), optionally an initial outage of 0.1..40 s during which all of N's traffic is lost (failed attempts, back-off, retry); 1..4 searches for H issued on N at: start, shortly after, just before / at / after the bootstrap completion time learnt from an identically configured twin; or at a generated point of the outage/back-off window; with and without announce. Oracle (metamorphic): each early search yields the same address set as the twin's search issued right after bootstrapped(); an early announcing search makes N findable by a third node. Non-trivial: a search issued >5 ms before bootstrap completion and a non-empty late result".into()
+        "a network of 3..6 real serving nodes (all know each other) in which one node has announced info-hash H; a fresh node N with 1..6 of them plus 0..3 silent addresses as contacts, per-datagram latencies from a generated table (0..400 ms), optionally an initial outage of 0.1..40 s during which all of N's traffic is lost (failed attempts, back-off, retry); 1..4 searches for H issued on N at: start, shortly after, just before / at / after the bootstrap completion time learnt from an identically configured twin; at a generated point of the outage/back-off window, or within 190 ms of the completion time; optionally a stranger pings the fresh node every 0.3..1.5 s and each reply takes 10..70 % of that period to send (busy event loop, so that searches and the completion pile up); with and without announce. Oracle (metamorphic): each early search yields the same address set as the twin's search issued right after bootstrapped(); an early announcing search makes N findable by a third node. Non-trivial: a search issued >5 ms before bootstrap completion and a non-empty late result".into()
     }
 }
 
